@@ -199,6 +199,111 @@ def _pvalue(v) -> str:
     return ast.unparse(v)
 
 
+# ---- phase 2: outlines of the plumbing functions -----------------------------------------------------
+def _exc(r: ast.Raise) -> str:
+    e = r.exc
+    if isinstance(e, ast.Call):
+        e = e.func
+    return "raise " + (ast.unparse(e) if e is not None else "")
+
+
+def outline(stmts, ind="", keep=None) -> list[str]:
+    """Source-order outline of assignments / returns / raises / control flow; expression statements
+    (logging, docstrings) are ignored.  `keep` restricts plain assignments to the given names."""
+    out = []
+    for st in stmts:
+        if isinstance(st, ast.Assign) and len(st.targets) == 1 and isinstance(st.targets[0], ast.Name):
+            if keep is None or st.targets[0].id in keep:
+                out.append(f"{ind}{st.targets[0].id}={ast.unparse(st.value)}")
+        elif isinstance(st, ast.Assign):
+            out.append(f"{ind}{ast.unparse(st.targets[0])}={ast.unparse(st.value)}")
+        elif isinstance(st, ast.AugAssign):
+            out.append(f"{ind}{ast.unparse(st)}")
+        elif isinstance(st, ast.Return):
+            out.append(f"{ind}return {ast.unparse(st.value) if st.value else ''}".rstrip())
+        elif isinstance(st, ast.Raise):
+            out.append(ind + _exc(st))
+        elif isinstance(st, ast.If):
+            out += _outline_if(st, ind, "if", keep)
+        elif isinstance(st, ast.For):
+            out.append(f"{ind}for {ast.unparse(st.target)} in {ast.unparse(st.iter)}")
+            out += outline(st.body, ind + "  ", keep)
+        elif isinstance(st, ast.With):
+            out.append(f"{ind}with {', '.join(ast.unparse(i) for i in st.items)}")
+            out += outline(st.body, ind + "  ", keep)
+        elif isinstance(st, ast.Expr):
+            if isinstance(st.value, ast.Call) and not ast.unparse(st.value.func).startswith(("logger.", "self.logger.", "torch.cuda.")) \
+                    and not isinstance(st.value, ast.Constant):
+                out.append(f"{ind}{ast.unparse(st.value)}")
+        else:
+            out.append(f"{ind}other:{type(st).__name__}")
+    return out
+
+
+def _outline_if(st: ast.If, ind, kw, keep):
+    out = []
+    if st.body and all(isinstance(b, ast.Raise) for b in st.body) :
+        out.append(f"{ind}{kw} {ast.unparse(st.test)}[{_exc(st.body[0])}]")
+    else:
+        out.append(f"{ind}{kw} {ast.unparse(st.test)}")
+        out += outline(st.body, ind + "  ", keep)
+    if st.orelse:
+        if len(st.orelse) == 1 and isinstance(st.orelse[0], ast.If):
+            out += _outline_if(st.orelse[0], ind, "elif", keep)
+        elif all(isinstance(b, ast.Raise) for b in st.orelse):
+            out.append(f"{ind}else[{_exc(st.orelse[0])}]")
+        else:
+            out.append(f"{ind}else")
+            out += outline(st.orelse, ind + "  ", keep)
+    return out
+
+
+def predict_facts(tree) -> list[str]:
+    fn = find_function(tree, "Engine.predict")
+    return outline(fn.body, keep={"batch_sampler", "data_loader", "output"})[-4:]
+
+
+def loader_facts(tree) -> list[str]:
+    fn = find_function(tree, "Engine.build_loader")
+    calls = [n for n in ast.walk(fn) if isinstance(n, ast.Call) and ast.unparse(n.func) == "DataLoader"]
+    if len(calls) != 1 or calls[0].args:
+        raise Untranslatable("expected exactly one keyword-only `DataLoader(...)` call")
+    return sorted(f"{k.arg}={ast.unparse(k.value)}" for k in calls[0].keywords)
+
+
+def dispatch_facts(tree) -> list[str]:
+    return outline(find_function(tree, "Engine.build_batch_sampler").body)
+
+
+def resolution_facts(tree) -> list[str]:
+    out = outline(find_function(tree, "_compute_resolution").body)
+    rv = find_function(tree, "MRIModelEngine.reconstruct_volumes")
+    for st in _loop(rv).body:
+        if isinstance(st, ast.Assign) and ast.unparse(st.targets[0]) == "resolution":
+            out.append("call resolution=" + ast.unparse(st.value))
+    return out
+
+
+def writer_facts(tree) -> list[str]:
+    fn = find_function(tree, "write_output_to_h5")
+    out = outline(fn.body)
+    names = [a.arg for a in fn.args.args]
+    defaults = dict(zip(names[len(names) - len(fn.args.defaults):], fn.args.defaults))
+    for k in ("output_key", "create_dirs_if_needed", "volume_processing_func"):
+        if k in defaults:
+            out.append(f"default {k}={ast.unparse(defaults[k])}")
+    return out
+
+
+PLUMBING = (
+    ("predict_facts", "direct/engine.py", predict_facts, "Recon.expectedPredictFacts"),
+    ("loader_facts", "direct/engine.py", loader_facts, "Recon.expectedLoaderFacts"),
+    ("sampler_dispatch", "direct/engine.py", dispatch_facts, "Recon.expectedSamplerDispatch"),
+    ("resolution_facts", M, resolution_facts, "Recon.expectedResolutionFacts"),
+    ("writer_facts", "direct/utils/writers.py", writer_facts, "Recon.expectedWriterFacts"),
+)
+
+
 def _strs(xs):
     return "[" + ",\n   ".join('"' + x.replace("\\", "\\\\").replace('"', '\\"') + '"' for x in xs) + "]"
 
@@ -212,6 +317,14 @@ def _c14_extra():
         try:
             fn = find_function(parse_file(REPO / M), qual)
             parts.append(f"/-- read from `{M}`:`{qual}` -/\ndef {name} : List String :=\n  {_strs(fnc(fn))}\n")
+            status[name] = "translated"
+        except Untranslatable as e:
+            parts.append(f"/-- SKIPPED ({e}) -/\ndef {name} : List String := {fb}\n")
+            status[name] = f"skipped: {e}"
+    for name, file, fnc, fb in PLUMBING:
+        try:
+            facts = fnc(parse_file(REPO / file))
+            parts.append(f"/-- read from `{file}` -/\ndef {name} : List String :=\n  {_strs(facts)}\n")
             status[name] = "translated"
         except Untranslatable as e:
             parts.append(f"/-- SKIPPED ({e}) -/\ndef {name} : List String := {fb}\n")
